@@ -769,14 +769,17 @@ impl Swift {
         let output_string = self.get_codable_contents();
         let output_path = Path::new(output_folder).join("Codable.swift");
 
+        // Compare with exactly what `write_codable` writes, so an unchanged file keeps its mtime.
+        let mut expected = Vec::new();
+        self.write_codable(&mut expected, &output_string)?;
         if let Ok(buf) = fs::read(&output_path) {
-            if buf == output_string.as_bytes() {
+            if buf == expected {
                 return Ok(());
             }
         }
 
         let mut w = fs::File::create(output_path)?;
-        self.write_codable(&mut w, &output_string)
+        w.write_all(&expected)
     }
 
     fn get_codable_contents(&self) -> String {
